@@ -8,12 +8,12 @@ ALL = ["C%02d" % i for i in range(1, 21)]
 TEXT = {
  "C01": "open replays exactly the accepted, not yet discarded messages (bag equality with the observer's own record of accepted adds; stored messages = accepted messages). Known finding F10 (non-string phase/body/id replayed as strings).",
  "C02": "every accepted add is sent exactly once, unmodified and with the binder's side, to exactly the connections that are subscribed by the protocol's definition; message frames only on add/open",
- "C03": "claimed answers name the live nameplate's mailbox, it never changes while the nameplate lives, new incarnations get never-used ids, no sharing, (app,name) is a key; plus C07.a as the premise 'for as long as the nameplate lives'",
+ "C03": "claimed answers name the live nameplate's mailbox, it never changes while the nameplate lives, new incarnations get never-used ids, no sharing, (app,name) is a key; plus the two ends of an incarnation: C07.a (it ends only by the causes C07 lists) and C07.e (after the last acknowledged release the name is free, also when the release had to be re-sent after a kill)",
  "C04": "allocated names are free, of the shortest class that has a free value (real class bounds 1-9/10-99/100-999/longer), held by the allocating side in the durable state reached when the answer is sent; listing allowed and disallowed; a quick history with all 999 short names in use",
  "C05": "per mailbox / nameplate incarnation at most two sides are ever subscribed, sent messages or told the id; refused third sides change no stored message; keep-access clause = known finding F6",
- "C06": "single run: a command of one app leaves every other app's rows and usage records untouched; pairs (TracePair, MBPair regime iso): app B's frames, rows, usage records and allocate candidate sets are equal with and without the other apps' commands. Known finding F2.",
- "C07": "claims end only by the side's own release, expiry, or deletion of the nameplate's mailbox; row exists iff held; release idempotent and answered released; no re-claim; unlisted after the last release",
- "C08": "close completes with `closed` (an internal failure counts as not completed); while another side is open everything of the mailbox stays; the last close deletes exactly the mailbox and what hangs off it, nothing unrelated",
+ "C06": "single run: a command of one app leaves every other app's rows and usage records untouched, and a bound connection cannot bind again (C06.bind); pairs (TracePair, MBPair regime iso): app B's frames, rows, usage records and allocate candidate sets are equal with and without the other apps' commands. Known finding F2.",
+ "C07": "claims end only by the side's own release, expiry, or deletion of the nameplate's mailbox; row exists iff held; release idempotent and answered released; no re-claim; `list` shows exactly the live nameplates (C18.a) and a name is unlisted after the last release",
+ "C08": "close completes with `closed` (an internal failure counts as not completed); while another side is open everything of the mailbox stays; the last close deletes exactly the mailbox and what hangs off it, nothing unrelated; after one side's close messages still reach exactly the subscribed connections (C08.e)",
  "C09": "every frame is emitted with nothing uncommitted (measured: no open transaction, or the server's view equals an independent reader's); what a frame acknowledges is in the durable state reached when it was sent; durable changes are detected at every SQL statement, not only at commit() calls",
  "C10": "every durable state is well formed; restart succeeds; after a crash nothing fails internally and the store empties once nobody returns (incl. a kill after EVERY durable change of chosen commands); pairs (regime resume): crash inside claim/release/open/close + restart + re-send = no crash. Known finding F2.",
  "C11": "pairs (TracePair regime restart; MBPair regime restart): server rebuilt from the files vs. server object kept, same continuation (every side and a newcomer probe what exists, sweeps at the same instants): equal frames, channel rows and usage records",
@@ -63,9 +63,10 @@ def check(pid):
         "text": ("TLC checks the clauses %s of spec/MBProps.tla on bounded instances of spec/MBServer.tla "
                  "(exhaustive to a stated depth; instances %s); the same clauses are evaluated by TLC "
                  "(spec/TraceCheck.tla) on executions of the real code recorded by the in-process harness: "
-                 "behaviours generated by TLC -simulate replayed on the code, and random histories; every "
+                 "behaviours generated by TLC -simulate replayed on the code, random and scripted histories%s; every "
                  "recorded step is also checked for conformance with the specification's Step. %s%s%s"
                  % (plan["clauses"], [m[0] for m in plan["mc"]],
+                    (", and the executions of the repository's own websocket tests recorded from outside" if plan.get("tests") else ""),
                     (" Relational part: lock-step self-composition spec/MBPair*.tla model-checked by TLC, and pairs of real "
                      "executions (regimes %s) compared by TLC (spec/TracePair.tla). " % [r[0] for r in plan["pairs"]]) if plan.get("pairs") else "",
                     " Summary functions over their whole finite input domain: spec/Classify.tla. " if plan.get("classify") else "",
